@@ -145,7 +145,7 @@ Proof.
   unfold test_fn4. pose proof (con4_get_nocl g c0 key) as G.
   destruct (con4_get g c0 key) as [x|e|]; cbn [fst nocl]; auto.
   destruct (is_null4 x); cbn [fst].
-  - destruct (is_null4 (opv4 op)); exact I || reflexivity.
+  - destruct (null4 (opv4 op)); exact I || reflexivity.
   - destruct (op_value4 op) as [ov|]; cbn [fst nocl]; auto. destruct (node_equal4 x ov); exact I || reflexivity.
 Qed.
 
@@ -585,21 +585,38 @@ Qed.
 Lemma marshal4_raw t : marshal4 (NRaw t) = print true t.
 Proof. reflexivity. Qed.
 
-Theorem deep_copy4_nonnil g v : v <> NNil ->
-  deep_copy4 g v = (NRaw (escape_tree true (render4 v)), zlen (marshal4 v)).
+(* a node that is not nil but marshals as null (the operation value null raw_nil4, the raw text null
+   raw_null4, the entered nil map nil_doc4) is copied as the raw text null, counted with its 4 bytes *)
+Lemma deep_copy4_fst g v : v <> NNil ->
+  fst (deep_copy4 g v) = match render4 v with TNull => raw_null4 | t => NRaw (escape_tree true t) end.
+Proof. destruct v; [congruence| | |]; unfold deep_copy4; cbn [fst]; destruct (render4 _); reflexivity. Qed.
+
+Lemma deep_copy4_snd g v : v <> NNil -> snd (deep_copy4 g v) = zlen (marshal4 v).
 Proof. destruct v; [congruence| | |]; reflexivity. Qed.
+
+Theorem deep_copy4_nonnil g v : v <> NNil -> render4 v <> TNull ->
+  deep_copy4 g v = (NRaw (escape_tree true (render4 v)), zlen (marshal4 v)).
+Proof.
+  intros N R. rewrite (surjective_pairing (deep_copy4 g v)), (deep_copy4_fst g v N), (deep_copy4_snd g v N).
+  destruct (render4 v); congruence.
+Qed.
 
 Theorem v4_copy_spelled_as_source g v : marshal4 (fst (deep_copy4 g v)) = marshal4 v.
 Proof.
-  destruct v as [|t|ks obj|ns]; [reflexivity| | |]; cbn [deep_copy4 fst]; rewrite marshal4_raw;
-    unfold marshal4; apply print_escape_tree.
+  destruct v as [|t|ks obj|ns]; [reflexivity| | |];
+    (rewrite deep_copy4_fst by discriminate; unfold marshal4 at 2;
+     match goal with |- context [match ?r with TNull => _ | _ => _ end] => destruct r end;
+     [reflexivity | ..]; rewrite marshal4_raw; apply print_escape_tree).
 Qed.
 
 (* ... also in indented output *)
 Theorem v4_copy_spelled_as_source_pp g ind k v :
   pp true ind k (render4 (fst (deep_copy4 g v))) = pp true ind k (render4 v).
 Proof.
-  destruct v as [|t|ks obj|ns]; [reflexivity| | |]; cbn [deep_copy4 fst render4]; apply pp_escape_tree.
+  destruct v as [|t|ks obj|ns]; [reflexivity| | |];
+    (rewrite deep_copy4_fst by discriminate;
+     match goal with |- context [match ?r with TNull => _ | _ => _ end] => destruct r end;
+     [reflexivity | ..]; cbn [render4]; apply pp_escape_tree).
 Qed.
 
 (* (5) the size counted for a source that is not a nil node is the byte length of its re-encoding,
@@ -608,10 +625,11 @@ Theorem v4_counted_size_is_spelling_length g v : v <> NNil ->
   snd (deep_copy4 g v) = zlen (marshal4 v) /\
   snd (deep_copy4 g v) = zlen (marshal4 (fst (deep_copy4 g v))).
 Proof.
-  intro N. rewrite v4_copy_spelled_as_source. rewrite (deep_copy4_nonnil g v N). split; reflexivity.
+  intro N. rewrite v4_copy_spelled_as_source. rewrite (deep_copy4_snd g v N). split; reflexivity.
 Qed.
 
-(* a nil node (an absent member, a null the decoder read, a null value of an operation): deepCopy
+(* a nil node (an absent member, a null the decoder read; NOT the null value of an operation, which is
+   the non-nil node raw_nil4 and counts 4): deepCopy
    returns nil and 0 as the code counts (g_nullsz = None), a fixed z otherwise; the copy is spelled
    with the 4 bytes null.  So for nil the size counted is NOT the length of the spelling. *)
 Theorem v4_nil_size g :
@@ -684,7 +702,7 @@ Lemma into_con4_nnd n ch : nnd n -> into_con4 n = Some ch -> cnd ch.
 Proof.
   intros N H. destruct n as [|t|keys obj|ns]; cbn [into_con4] in H; try discriminate.
   - destruct t; try discriminate; inversion H; subst; [apply cnd_children | apply cnd_obj_of].
-  - inversion H; subst. exact N.
+  - destruct keys as [|k0 keys]; inversion H; subst; [exact N | apply cnd_nil].
   - inversion H; subst. exact N.
 Qed.
 
@@ -804,7 +822,10 @@ Lemma opv4_nnd op : nnd (opv4 op).
 Proof. unfold opv4, op_value4. destruct (aget (B "value") op) as [[t|]|]; exact I. Qed.
 
 Lemma deep_copy4_nnd g v : nnd (fst (deep_copy4 g v)).
-Proof. destruct v; exact I. Qed.
+Proof.
+  destruct (deep_copy4_cases g v) as [E|[E|E]]; rewrite E; try exact I.
+  apply nnd_doc. split; constructor.
+Qed.
 
 (* the source a copy hands to deepCopy was read from a document with the invariant *)
 Lemma copy_reach4_nnd g st op v c2 path : snd4 st -> copy_reach4 g st op = Some (v, c2, path) -> cnd c2.
@@ -879,7 +900,7 @@ Qed.
 (* ---- 4b. what render4 shows of a node: every member of a map with distinct names, every element ---- *)
 Definition nchild4 (sub n : node) : Prop :=
   match n with
-  | NDoc _ obj => NoDup (map fst obj) /\ exists k, In (k, sub) obj
+  | NDoc [] obj => NoDup (map fst obj) /\ exists k, In (k, sub) obj   (* a live map; the tagged nodes are written as null *)
   | NAry ns => In sub ns
   | _ => False
   end.
@@ -898,7 +919,7 @@ Proof. intros H1 H2. induction H2 as [|m t Hc Hd IH]; [exact H1|]. eapply subnod
 Lemma render4_child sub n : nchild4 sub n -> tchild (render4 sub) (render4 n).
 Proof.
   destruct n as [|t|keys obj|ns]; cbn [nchild4]; try contradiction.
-  - intros [N [k Hk]]. rewrite render4_doc. cbn [tchild]. exists (quote true k).
+  - destruct keys as [|k0 keys]; [|contradiction]. intros [N [k Hk]]. rewrite render4_doc. cbn [tchild]. exists (quote true k).
     apply (in_map (fun kv : bytes * tjson => (quote true (fst kv), snd kv)) _ (k, render4 sub)).
     assert (P : Permutation (sort4 (msnd render4 obj)) (msnd render4 obj))
       by (apply sort4_perm; rewrite msnd_keys; exact N).
@@ -968,17 +989,18 @@ Proof.
 Qed.
 
 (* the text Apply writes for a document that holds a node of kind raw or nil below its root *)
-Lemma subnode4_tree4 cp c : (forall ks obj, cp <> NDoc ks obj) -> subnode4 cp (node_of_con4 c) ->
-  tree4 c = render4 (node_of_con4 c).
-Proof.
-  intros N H. destruct c as [obj| |ns]; try reflexivity. exfalso. cbn [node_of_con4] in H.
-  inversion H as [E|m n Hc Hd]; subst.
-  - eapply N; eauto.
-  - cbn [nchild4] in Hc. destruct Hc as [_ [k []]].
-Qed.
+(* the root document null is the nil map nil_doc4, written as null: the tree of every container is
+   the rendering of its node (the former side condition, the copy is no NDoc, is gone: a copy of a
+   non-nil null IS the tagged NDoc raw_null4) *)
+Lemma tree4_render4 c : tree4 c = render4 (node_of_con4 c).
+Proof. destruct c; reflexivity. Qed.
 
-Lemma deep_copy4_not_doc g v ks obj : fst (deep_copy4 g v) <> NDoc ks obj.
-Proof. destruct v; discriminate. Qed.
+Lemma subnode4_tree4 cp c : subnode4 cp (node_of_con4 c) -> tree4 c = render4 (node_of_con4 c).
+Proof. intros _. apply tree4_render4. Qed.
+
+(* deepCopy returns the nil node, a raw message, or the raw text null raw_null4 *)
+Lemma deep_copy4_not_live_doc g v obj : fst (deep_copy4 g v) <> NDoc [] obj.
+Proof. destruct (deep_copy4_cases g v) as [E|[E|E]]; rewrite E; discriminate. Qed.
 
 (* one successful copy: the source value v it read, the node cp deepCopy made of it and its size sz;
    sz is what the counter grew by, cp is in the tree of the new state, spelled as the source, its
@@ -1000,16 +1022,16 @@ Proof.
   split; [unfold copy_src4; rewrite R; reflexivity|].
   split; [destruct (deep_copy4 g v); reflexivity|]. split; [exact A|].
   split; [apply v4_copy_spelled_as_source|]. split; [exact Sub|]. split.
-  - cbn [output4]. rewrite (subnode4_tree4 _ (r4 st') (deep_copy4_not_doc g v) Sub).
+  - cbn [output4]. rewrite (subnode4_tree4 _ (r4 st') Sub).
     apply (subnode4_output _ _ Sub).
   - intro N. apply (proj2 (v4_counted_size_is_spelling_length g v N)).
 Qed.
 
 (* a later state: as long as the node is still in the tree its spelling is in the compact output *)
 Corollary v4_copied_node_in_output cp c :
-  (forall ks obj, cp <> NDoc ks obj) -> subnode4 cp (node_of_con4 c) ->
+  subnode4 cp (node_of_con4 c) ->
   infix (marshal4 cp) (output4 [] (tree4 c)).
-Proof. intros N Sub. cbn [output4]. rewrite (subnode4_tree4 cp c N Sub). apply (subnode4_output _ _ Sub). Qed.
+Proof. intros Sub. cbn [output4]. rewrite (subnode4_tree4 cp c Sub). apply (subnode4_output _ _ Sub). Qed.
 
 (* the copy at position length p1 of a patch that Apply runs to the end on a parsed document: what it
    adds to the counter is the length of the spelling of the node it stores (nil apart), that spelling is
@@ -1033,8 +1055,7 @@ Proof.
   pose proof (apply4_from_nnd g p1 0%nat st0 st1 _ HS A1) as S1.
   destruct (v4_copy_step_spelling g st1 op st2 S1 K St) as [v [cp [sz [Sv [D [A [Sp [Sub [Inf Z]]]]]]]]].
   exists st1, st2, v, cp, sz. repeat (split; [assumption || reflexivity|]).
-  intro Sf. apply v4_copied_node_in_output; [|exact Sf].
-  intros ks obj E. pose proof (deep_copy4_not_doc g v ks obj) as ND. rewrite D in ND. cbn [fst] in ND. congruence.
+  intro Sf. apply v4_copied_node_in_output. exact Sf.
 Qed.
 
 (* the copy is the last operation of a patch applied to a parsed document: the bytes Apply returns
